@@ -6,7 +6,11 @@ judges (implementation vs the oracle of coq/Spec/PedanticSpec.v).
 Input dimensions beyond signature x call x body outcome (each counted in the evidence as dim:... and floored by the obligation
 generator-floor): the text of the function (TEXTS / AT_TEXTS), call histories, calls made inside a running call, a shadowed namesake,
 parameter names from the decorators' own vocabulary (rename_params), bodies that change an argument in place and return it
-(add_mutret), two products of one def statement (add_sibling), one positional value with every parameter defaulted (focus='onepos')."""
+(add_mutret), two products of one def statement (add_sibling), one positional value with every parameter defaulted (focus='onepos'),
+a non-conforming positional value BEHIND parameters annotated typing.Any whose values conform to their right neighbour's annotation
+(gen_anyfront_case), a target that carries the attributes of another, already decorated function - functools.wraps(donor) / its
+__dict__ only (add_wraps), and - implementation-only, judged against the undecorated twin - parameters that share one TypeVar, given
+instances of a class and of its subclasses, with the keywords of the same call written in every order (gen_tvorder_case)."""
 import copy, json, re
 from lib import *
 import universe as U
@@ -612,7 +616,22 @@ def gen_case(rng, stream, forced=None, focus=None):
         mutate_malformed(rng, c, kind)
     if kind != 'property' and rng.random() < 0.12:
         rename_params(rng, c)
+    if rng.random() < 0.15:
+        add_wraps(rng, c)
     return c
+
+
+def add_wraps(rng, c):
+    """the callable under test carries the attributes of ANOTHER function that is already decorated the same way (an earlier function /
+    a method of another class with the very same def statement): @functools.wraps(donor) below the decorators - a replacement that keeps
+    name and documentation of what it supersedes, an override that keeps the doc of the overridden method - or only donor.__dict__
+    (functools.update_wrapper(f, donor, assigned=(), updated=('__dict__',))).  Whatever the decorators of the donor left on it (markers,
+    caches, __wrapped__) travels to the new function before it is decorated itself."""
+    if c.get('gen') or c.get('shadow') or c.get('sibling') or c['style'] == 'property':
+        return
+    if c['style'] != 'func' and (c['mkind'] != 'instance' or c.get('self_kw')):
+        return
+    c['wraps'] = rng.choice(['full', 'full', 'dict'])
 
 
 MUT_KINDS = {
@@ -925,6 +944,8 @@ def judge_nomodel(pid, case, i):
     objects, the very result object comes back, the receiver is not even asked for its length / truth value"""
     if pid != 'C04':
         return None
+    if case.get('tvorder'):
+        return judge_tvorder(case, i)
     if i['out'] != 0:
         return f'conforming keyword call (typing.Self, receiver falsy: {case["selfann"]["falsy"]}): outcome {i["out"]} ({i.get("exc")}), the undecorated method returns'
     if len(i['journal']) != 1:
@@ -934,6 +955,146 @@ def judge_nomodel(pid, case, i):
     if i.get('len_calls'):
         return 'conforming keyword call (typing.Self): checking asked the receiver for its length / truth value'
     return None
+
+
+def judge_tvorder(case, i):
+    """the call conforms (T := the class of the value of the first TypeVar parameter; every other value is an instance of it) and all
+    arguments are keywords: the body runs exactly once on the caller's objects and its result / exception reaches the caller unchanged -
+    in whatever order the caller wrote the keywords"""
+    how = 'keywords in signature order' if case['tvorder'].get('signature_order') else \
+        'keywords written in the order ' + ', '.join(N.pname(k) for k, _ in case['kwargs'])
+    label = f'conforming keyword call (parameters sharing one TypeVar, values of a class and of its subclasses; {how})'
+    want = 0 if case['body'][0] == 'ret' else N.exc_code(case['body'][1])
+    if i.get('out') != want:
+        return f'{label}: outcome {i.get("out")} ({i.get("exc")}), the undecorated function gives {want}'
+    j = i.get('journal') or []
+    if len(j) != 1:
+        return f'{label}: the body ran {len(j)} times'
+    for k, _ in case['kwargs']:
+        got = (j[0].get('bind') or {}).get(str(k)) or (j[0].get('bind') or {}).get(k)
+        if not got or got[0] != 'one' or [3, k] not in got[1]:
+            return f'{label}: the body did not receive the caller\'s object for {N.pname(k)}: {json.dumps(got)[:120]}'
+    if not i.get('same_object', True):
+        return f'{label}: the caller did not receive the very object the body produced / raised'
+    return None
+
+
+FRESH_NAMES = POS_NAMES + [15, 16, 17, 18]
+
+
+def gen_anyfront_case(rng):
+    """a positionally callable function (one that declares *args, or a dunder method outside the documented list) called positionally;
+    in front of a named parameter a parameter annotated typing.Any is declared whose value conforms to the annotation of that right
+    neighbour; the neighbour's own value does NOT conform (near-miss: C03 'whichever parameter position it is in').  The parameter
+    behind Any is mostly the last named one, and *args is then mostly annotated Any / object as well."""
+    for _ in range(60):
+        dunder = rng.random() < 0.45
+        if dunder:
+            c = gen_case(rng, 'valid', forced=rng.choice(['class_deco', 'method_direct']))
+        else:
+            c = gen_case(rng, 'valid', forced=rng.choice(['func', 'func', 'stacked', 'class_deco', 'method_direct']), focus='varargs')
+        # KEPT OUT (known defects of the unchanged library, family 'receiver taken for the first positional value': static / class
+        # methods reached through an instance or the class and receivers not called self - the first checking pass does not count the
+        # receiver, so every named parameter is checked against its LEFT neighbour's value; behind an Any parameter whose value conforms
+        # to the next annotation that shifted check passes and the call ends in CPython's own TypeError / in the body: e.g.
+        # @pedantic_class K: @classmethod m(cls, c: Any, a: Dict[..], *args: Any), K().m({}, b'') -> TypeError instead of
+        # PedanticTypeCheckException; registered findings *_receiver_taken_as_value / receiver_checked_against_varargs, new symptom)
+        if c['mkind'] not in ('plain', 'instance') or c.get('recv_name') not in (None, 0):
+            continue
+        if (c.get('self_kw') or c['mut'] != 'none' or c.get('inside') or c.get('mutret') or c.get('sibling') or c.get('vocab')
+                or c.get('recv_as_value') or c.get('wraps')):
+            continue
+        params = c['params']
+        lead = [p for p in params if p['kind'] in ('pos', 'posonly')]
+        vp = [p for p in params if p['kind'] == 'varpos']
+        if not lead:
+            continue
+        if dunder:
+            if c['mkind'] != 'instance' or vp:
+                continue
+            c['name'] = rng.choice(DUNDER_EXEMPT)
+            kw = dict((k, v) for k, v in c['kwargs'])
+            if not all(p['name'] in kw or p['default'] is not None for p in lead):
+                continue
+            c['args'] = [strip_iters(kw[p['name']] if p['name'] in kw else p['default'], False) for p in lead]
+            c['kwargs'] = [kv for kv in c['kwargs'] if kv[0] not in [p['name'] for p in lead]]
+        elif not vp or len(c['args']) < len(lead):
+            continue
+        j = len(lead) - 1 if rng.random() < 0.75 else rng.randrange(len(lead))
+        target = lead[j]
+        v_front = conf(rng, target['ann'])
+        w = wrong(rng, target['ann'], c['args'][j])
+        if v_front is None or w is None:
+            continue
+        used = set(p['name'] for p in params) | set(k for k, _ in c['kwargs']) | {0, 1}
+        fresh = [n for n in FRESH_NAMES if n not in used]
+        if not fresh:
+            continue
+        n_any = rng.choice([1, 1, 1, 2]) if len(fresh) > 1 else 1
+        pos = params.index(target)
+        for q in range(n_any):
+            dflt = rng.choice([['int', 0], ['none'], ['str', [97]]]) if target['default'] is not None else None
+            params.insert(pos, {'name': fresh[q], 'kind': target['kind'], 'ann': ['any'], 'default': dflt})
+            # every value conforms to Any; this one also conforms to the annotation of the parameter on its right
+            c['args'].insert(j, strip_iters(v_front if q == 0 else (conf(rng, target['ann']) or v_front), False))
+        c['args'][j + n_any] = w
+        if vp and j == len(lead) - 1 and rng.random() < 0.7:
+            vp[0]['ann'] = rng.choice([['any'], ['any'], ['cls', 'object']])
+        c['stream'], c['mut'], c['anyfront'] = 'near', 'positional_bad_behind_any', True
+        c.pop('shadow', None)
+        no_default_iters(c)
+        return c
+    return gen_case(rng, 'near', focus='varargs')
+
+
+TV_FAMILIES = [
+    # a class and subclasses of it, each value's class a subclass of (or equal to) the class of the value BEFORE it in signature order.
+    # KEPT OUT (suspected defect of the unchanged library, reported: check_types._is_instance re-binds an already bound TypeVar to the
+    # class of every later value - `type_vars[type_] = type(obj)` - so the binding narrows along the signature):
+    # f(a=1, b=True, c=7) / f(a=Animal(), b=Dog(), c=Animal()) with a: T, b: T, c: T raise PedanticTypeVarMismatchException although
+    # f(a=Animal(), b=Animal(), c=Dog()) is accepted, i.e. families like [int, bool, int] and [[0], [0, 1], [0]].
+    [['int', 1], ['bool', True], ['bool', False]],
+    [['inst', [0], 1], ['inst', [0, 1], 2], ['inst', [0, 1, 0], 3]],
+    [['inst', [0], 1], ['inst', [0], 4], ['inst', [0, 1], 2]],
+    [['int', 5], ['int', 7], ['bool', True]],
+    [['float', 3], ['float', 5], ['float', 1]],
+]
+
+
+def gen_tvorder_case(rng):
+    """two or three named parameters annotated with ONE unconstrained TypeVar; in signature order the first receives an instance of
+    a class and the others instances of that class or of subclasses of it (Animal / Dog, int / bool): the call conforms with
+    T := the class of the first.  All arguments are keywords; the call under test writes them in a random order - the same call as far
+    as Python is concerned.  TypeVar conformance is outside the oracle of Spec/PedanticSpec.v (`conforms` is Unspec there): these cases
+    are judged on the implementation against the undecorated twin only."""
+    kind = rng.choice(['func', 'func', 'method_direct', 'class_deco'])
+    c = {'mode': 'pedantic', 'style': 'func', 'mkind': 'plain', 'name': 'f', 'recv_name': None, 'decos': ['pedantic'],
+         'async': rng.random() < 0.1, 'gen': False, 'text': 'none', 'via': None, 'ctx': GC.CTX, 'stream': 'valid', 'mut': 'none',
+         'nomodel': True, 'exc_msg': 0}
+    if kind != 'func':
+        c.update({'style': kind, 'mkind': 'instance', 'name': 'm', 'recv_name': 0, 'decos': [] if kind == 'class_deco' else ['pedantic'],
+                  'via': rng.choice(['instance', 'sub_instance'])})
+    tv = ['tv', {'id': rng.choice([10, 11]), 'constraints': [], 'bound': None, 'contra': False}]
+    fam = rng.choice(TV_FAMILIES)
+    n = rng.choice([2, 2, 3])
+    n_kwo = rng.choice([0, 0, 1])
+    params, kwargs = [], []
+    names = POS_NAMES[:n - n_kwo] + KWO_NAMES[:n_kwo]
+    for i, name in enumerate(names):
+        params.append({'name': name, 'kind': 'kwonly' if i >= n - n_kwo else 'pos', 'ann': copy.deepcopy(tv), 'default': None})
+        kwargs.append([name, fam[i]])
+    if rng.random() < 0.4:      # an ordinary parameter somewhere among them
+        a, v = plain_ann_val(rng, 0)
+        k = rng.randrange(0, n - n_kwo + 1)
+        params.insert(k, {'name': 6, 'kind': 'pos', 'ann': a, 'default': None})
+        kwargs.append([6, v])
+    c['ret'], rv = plain_ann_val(rng, 0)
+    c['body'] = ['ret', rv] if rng.random() < 0.85 else ['raise', rng.choice(BODY_EXC)]
+    order = list(range(len(kwargs)))
+    rng.shuffle(order)
+    c['params'], c['args'], c['kwargs'] = params, [], [kwargs[k] for k in order]
+    c['tvorder'] = {'order': order, 'signature_order': order == sorted(order)}
+    return c
 
 
 def gen_cases(rng, tier, scale=1):
@@ -955,6 +1116,10 @@ def gen_cases(rng, tier, scale=1):
             # one declared parameter positional, every other one defaulted; '@' somewhere in the source of the function
             cases.append(gen_case(rng, 'near', forced=rng.choice(['func', 'func', 'func', 'require_kwargs', 'require_kwargs', 'class_deco',
                                                                    'method_direct', 'stacked']), focus='onepos'))
+        elif r2 < 0.53:
+            cases.append(gen_anyfront_case(rng))
+        elif r2 < 0.57:
+            cases.append(gen_tvorder_case(rng))
         else:
             cases.append(gen_case(rng, stream))
     return cases
@@ -1282,6 +1447,8 @@ def reductions(c):
         d = copy.deepcopy(base); d['text'] = 'none'; out.append(d)
     if base.get('shadow'):
         d = copy.deepcopy(base); d.pop('shadow'); out.append(d)
+    if base.get('wraps'):
+        d = copy.deepcopy(base); d.pop('wraps'); out.append(d)
     if base.get('inside'):
         d = copy.deepcopy(base); d.pop('inside'); out.append(d)
     if base.get('history') and len(base['history'].get('pre', [])) > 1:
@@ -1369,11 +1536,13 @@ def run(pid, props, tier, seed, replay=None):
         if 'decoration' in i:
             bump('rejected-at-decoration'); continue
         if c.get('nomodel'):
-            bump('stream:model-free(typing.Self)'); bump('outcome:%d' % i['out'])
-            ck.note_case(json.dumps([c['params'], c['kwargs'], c['selfann'], c['ret']], sort_keys=True), nontrivial=True)
-            what = judge_nomodel(pid, c, i)
+            bump('stream:model-free(typing.Self)' if c.get('selfann') else 'dim:one-typevar-shared-keyword-order-permuted'
+                 + ('' if not (c.get('tvorder') or {}).get('signature_order') else '(signature order)'))
+            bump('outcome:%d' % i['out'])
+            ck.note_case(json.dumps([c['style'], c['params'], c['kwargs'], c.get('selfann'), c.get('tvorder'), c['ret']], sort_keys=True), nontrivial=True)
+            what = total(lambda cs, im, _m: judge_nomodel(pid, cs, im))(c, i, None)
             if what:
-                ck.violation(what, dict(c, _fn=i['fn']), stream='pedantic/self', extra={'impl': {k: v for k, v in i.items() if k != 'fn'}}, matcher=matcher)
+                ck.violation(what, dict(c, _fn=i['fn']), stream='pedantic/self' if c.get('selfann') else 'pedantic/typevar-order', extra={'impl': {k: v for k, v in i.items() if k != 'fn'}}, matcher=matcher)
             else:
                 ck.traces_validated += 1
             continue
@@ -1388,6 +1557,9 @@ def run(pid, props, tier, seed, replay=None):
         if c.get('mutret'): bump('dim:body-changes-argument-in-place-and-returns-it' + ('(non-conforming)' if c['mut'] == 'mutret_bad' else ''))
         if c.get('sibling'): bump('dim:two-products-of-one-def-statement')
         if c.get('onepos'): bump('dim:one-positional-all-defaulted')
+        if c.get('anyfront'): bump('dim:positional-value-behind-any-annotated-parameters')
+        if c.get('wraps'): bump('dim:target-carries-attributes-of-a-decorated-function')
+        if c.get('wraps') and m['c05_positional']: bump('dim:target-carries-attributes-of-a-decorated-function(positional call)')
         if c['text'] in AT_TEXTS: bump('dim:at-sign-in-source')
         if any(p['name'] in N.VOCAB or (p['name'] in (7, 8) and p['kind'] in ('pos', 'kwonly', 'posonly')) for p in c['params']) \
                 or any(k in N.VOCAB for k, _ in c['kwargs']):
@@ -1426,7 +1598,11 @@ def run(pid, props, tier, seed, replay=None):
                                       and hist.get('dim:body-changes-argument-in-place-and-returns-it(non-conforming)', 0) >= 4
                                       and hist.get('dim:two-products-of-one-def-statement', 0) >= 8
                                       and hist.get('dim:one-positional-all-defaulted', 0) >= 20
-                                      and hist.get('dim:names-of-the-decorators-own-vocabulary', 0) >= 20)
+                                      and hist.get('dim:names-of-the-decorators-own-vocabulary', 0) >= 20
+                                      and hist.get('dim:positional-value-behind-any-annotated-parameters', 0) >= 10
+                                      and hist.get('dim:target-carries-attributes-of-a-decorated-function', 0) >= 20
+                                      and hist.get('dim:target-carries-attributes-of-a-decorated-function(positional call)', 0) >= 3
+                                      and hist.get('dim:one-typevar-shared-keyword-order-permuted', 0) >= 5)
     ck.oblige('generator-floor', 'correspondence', floor_ok,
               f'cases per oracle region / input dimension: {dict((k, v) for k, v in hist.items() if k.startswith(("spec:", "dim:")))}')
     ck.coverage.update({'histogram': dict(sorted(hist.items())), 'disagreements': len(disagreements)})
